@@ -103,7 +103,7 @@ theorem rejected_not_executed (c : Cfg) (snk : Snk) (mf : MaybeFrame) (be : Back
     encoding, EHEADERCRC = 2 for a bad header checksum), payload faults with nothing yet (the error
     response is sent by `regp_process`, see `rejected_not_executed`) -/
 theorem damaged_frame_reception (p : Inst) (raw : List Octet) (rest : List SrcEv)
-    (hch : channelRecv p.cfg p.src = (none, raw, rest)) (hcap : 0 < p.cfg.B - p.cfg.F)
+    (hch : channelRecv p.cfg p.src = (none, raw, rest))
     (hne : raw ≠ []) (hal : p.al.script.head?.getD false = false) (hfit : raw.length ≤ p.cfg.B - p.cfg.F)
     (hbad : ∀ f, classify raw ≠ .accept f) :
     (∃ e, (regp_recv p).2.1.err = some e) ∧
@@ -113,7 +113,7 @@ theorem damaged_frame_reception (p : Inst) (raw : List Octet) (rest : List SrcEv
       ((regp_recv p).1, (regp_recv p).2.2.snk) = ((regp_resp_meta p.cfg p.snk 2).rc, (regp_resp_meta p.cfg p.snk 2).snk)) ∧
     ((∃ f, classify raw = .badPayloadSize f ∨ classify raw = .badPayloadChecksum f) →
       ((regp_recv p).1, (regp_recv p).2.2.snk) = (none, p.snk)) := by
-  obtain ⟨hmf, _, _, _, _, hreply⟩ := recv_stored p raw rest hch hcap hne hal hfit
+  obtain ⟨hmf, _, _, _, _, hreply⟩ := recv_stored p raw rest hch hne hal hfit
   have hv := verdict_eq_spec raw
   rcases hpf : parse_frame raw with ⟨r, h⟩
   rw [hpf] at hv hmf hreply
